@@ -376,6 +376,21 @@ class Interp:
             return
         if isinstance(t, (ast.Tuple, ast.List)):
             items = self.iter_concrete(v)
+            stars = [i for i, e in enumerate(t.elts) if isinstance(e, ast.Starred)]
+            if len(stars) == 1:
+                # a, *mid, b = seq
+                i = stars[0]
+                tail = len(t.elts) - i - 1
+                if len(items) < len(t.elts) - 1:
+                    raise TypeViolation("not enough values to unpack")
+                for e, x in zip(t.elts[:i], items[:i]):
+                    self.assign(e, x, fr)
+                self.assign(t.elts[i].value, VList(list(items[i:len(items) - tail])), fr)
+                for e, x in zip(t.elts[i + 1:], items[len(items) - tail:] if tail else []):
+                    self.assign(e, x, fr)
+                return
+            if stars:
+                raise Unmodelled("several starred targets")
             if len(items) != len(t.elts):
                 raise TypeViolation("unpacking length mismatch")
             for e, x in zip(t.elts, items):
@@ -1423,12 +1438,16 @@ class Interp:
         if isinstance(gv, ast.Dict):
             items = []
             for k, v in zip(gv.keys, gv.values):
-                if not isinstance(k, ast.Constant):
+                if isinstance(k, ast.Constant):
+                    key = k.value
+                elif isinstance(k, ast.Tuple) and all(isinstance(x, ast.Constant) for x in k.elts):
+                    key = tuple(x.value for x in k.elts)         # ('AB', True): a tuple of literals
+                else:
                     return None
                 val = self.eval_global(v, fr, depth + 1)
                 if val is None:
                     return None
-                items.append((k.value, val))
+                items.append((key, val))
             return VConstDict(items)
         if isinstance(gv, (ast.Name, ast.Attribute)) and depth > 0:
             r = self.model.resolve(fr.f.module, gv)
@@ -1440,6 +1459,11 @@ class Interp:
     @staticmethod
     def literal_key(v):
         """(True, python value) for a literal dictionary key, else (False, None)"""
+        if isinstance(v, VTuple):
+            parts = [Interp.literal_key(x) for x in v.items]
+            if all(ok for ok, _ in parts):
+                return True, tuple(val for _, val in parts)
+            return False, None
         if isinstance(v, VNone):
             return True, None
         if isinstance(v, VStr):
